@@ -12,6 +12,10 @@ git -C "$WT" apply "$SD/patch.diff" || { echo "PATCH DOES NOT APPLY"; git -C /re
 echo "== baseline with patch (expect 753 of 753)"; "$ROOT/tools/baseline.sh" "$WT"
 echo "== demo WITH patch (expect fail)"; (cd "$WT" && PYTHONPATH="$WT" /venv/bin/python -W ignore "$DEMO" >/tmp/seed-demo-patched.log 2>&1; echo "exit=$?"); tail -3 /tmp/seed-demo-patched.log
 echo "== check $PID quick on patched tree (expect VIOLATION)"
-for s in 0 1 2; do (cd "$ROOT" && MENPO_REPO="$WT" VERIF_SEED=$s ./check "$PID" --tier quick 2>&1 | grep -v KNOWN-FINDING | tail -2); done
+# the check rewrites Generated/<PID>*.lean and evidence/<PID>.json from the tree it looks at: keep and restore them
+SAVE=$(mktemp -d /tmp/seed-save-XXXXXX)
+(cd "$ROOT" && tar cf "$SAVE/s.tar" evidence/$PID.json $(ls lean/MenpoModel/Generated/${PID}*.lean 2>/dev/null) 2>/dev/null)
+for s in ${SEEDS:-0 1 2}; do (cd "$ROOT" && MENPO_REPO="$WT" VERIF_SEED=$s ./check "$PID" --tier quick 2>&1 | grep -v KNOWN-FINDING | tail -2); done
+(cd "$ROOT" && tar xf "$SAVE/s.tar"); rm -rf "$SAVE"
 git -C /repo worktree remove --force "$WT"
 rm -f /tmp/seed-demo-clean.log /tmp/seed-demo-patched.log
